@@ -174,10 +174,24 @@ def expected_from_structure(fc, frame_case, reduced_map, levels_override=None):
     return names, M
 
 
-def split_label(label):
-    """Split a column label on ':' outside brackets/parentheses/braces/quotes."""
+def split_label(label, names=()):
+    """Split a column label on ':' outside brackets/parentheses/braces/quotes. `names`: column names that themselves
+    contain ':' (they appear verbatim, unquoted, at the start of a label piece) and must not be split."""
     parts, depth, cur, q = [], 0, "", None
+    i = -1
+    skip = 0
     for ch in label:
+        i += 1
+        if skip:
+            skip -= 1
+            cur += ch
+            continue
+        if not cur and depth == 0 and not q:
+            hit = next((nm for nm in names if ":" in nm and label.startswith(nm, i)), None)
+            if hit:
+                cur += ch
+                skip = len(hit) - 1
+                continue
         if q:
             cur += ch
             if ch == q:
